@@ -5,6 +5,7 @@
 //	c20 cert <hex DER> [<mutation kind>]   certificate level, T3-only (cert.go)
 //	c20 u <schema> p=<tagstring> <hex>     asn1 level, both modes, T2 + T3 (asn1.go)
 //	c20 tpc <u|g> <hex> / c20 tu time p=<tagstring> <hex>   time values, both modes, T2 + T3 (time.go)
+//	c20 xsch / xpk / xgn / xpc             x509-level sites of the flag, both modes, T2 + T3 (x509sites.go)
 //
 // asn1.AllowPermissiveParsing is PROCESS-GLOBAL: the property is Serial (Exec runs single-threaded) and, in
 // addition, every toggle of the flag in this package happens under permMu and restores false with defer.
@@ -24,6 +25,7 @@ func gen(g *zv.Gen) {
 	genAsn1(g)
 	genCert(g)
 	genTime(g)
+	genX(g)
 }
 
 func exec(line string) zv.Out {
@@ -38,6 +40,8 @@ func exec(line string) zv.Out {
 		return execAsn1(line)
 	case "tpc", "tu":
 		return execTime(f)
+	case "xsch", "xpk", "xgn", "xpc":
+		return execX(f)
 	}
 	return zv.Out{Go: "bad-op"}
 }
